@@ -145,6 +145,25 @@ class Chosen:
         return self
 
 
+class CoarseMemo(G.AbsMemo):
+    """the memo after a stubbed emission: `is_empty()` forks two ways (empty / not empty) instead of over the size classes;
+    the size class is only chosen if something asks for more than emptiness"""
+
+    def is_empty(self, I):
+        if self.keys_ is None and getattr(self, "_nonempty", None) is None and 0 in self.classes and len(self.classes) > 1:
+            I.run.event("memo_inspected")
+            if I.run.choose(2, "memo empty?") == 0:
+                self.n0 = 0
+                self.keys_ = set()
+                return True
+            self._nonempty = True
+            self.classes = tuple(k for k in self.classes if k > 0)
+            return False
+        if self.keys_ is None and getattr(self, "_nonempty", None):
+            return False
+        return G.AbsMemo.is_empty(self, I)
+
+
 def generate_internal_leaves(env, version, max_loop=3):
     """interpret generate_internal with the four callees that are verified separately stubbed out"""
     prog, ctx = env.prog, env.ctx
@@ -191,7 +210,7 @@ def generate_internal_leaves(env, version, max_loop=3):
                 return
             snames = ctx.fields(ctx.state_adt)
             if "memo" in snames:
-                st.fields[snames.index("memo")] = G.AbsMemo(ctx)
+                st.fields[snames.index("memo")] = CoarseMemo(ctx)
             if "stack" in snames:
                 sk = st.fields[snames.index("stack")]
                 knames = ctx.fields(ctx.stack_adt)
